@@ -131,8 +131,13 @@ func sharedProvider(can, kind string) server.ServiceMethod[ipld.Builder] {
 	}
 	// kind "...+didwith": the capability reads its resource with schema.DIDString()
 	didWith := strings.HasSuffix(kind, "+didwith")
-	kind = strings.TrimSuffix(kind, "+didwith")
-	desc := (&World{Can: can, DIDWith: didWith}).descriptor(&Obs{})
+	didKey := strings.HasSuffix(kind, "+didkey") // ... with schema.DIDString(schema.WithMethod("key"))
+	kind = baseKind(kind)
+	dw := &World{Can: can, DIDWith: didWith || didKey}
+	if didKey {
+		dw.DIDMethod = "key"
+	}
+	desc := dw.descriptor(&Obs{})
 	h := func(cap ucan.Capability[Cav], inv invocation.Invocation, ctx server.InvocationContext) (ipld.Builder, fx.Effects, error) {
 		cur := currentBatch.Load()
 		if cur != nil && cur.r != nil {
@@ -193,7 +198,7 @@ func fxInvocation(i int) invocation.Invocation {
 // kindEffects: the effects the handler of the given kind returns with its value (sharedProvider), as links:
 // the fork links in order and the join (nil: none). An effect given as an invocation is named by its link.
 func kindEffects(kind string) (forks []ipld.Link, join ipld.Link) {
-	switch strings.TrimSuffix(kind, "+didwith") {
+	switch baseKind(kind) {
 	case "okfx":
 		return []ipld.Link{fakeLink(777)}, nil
 	case "okjoin":
@@ -582,7 +587,7 @@ func (b *Batch) runOn(ch transport.Channel, names []string, obs *BatchObs) {
 				if ro.Class == "ok" {
 					// DIRECT oracle: the effects the handler returned are the effects of the receipt (forks in order, the join)
 					if caps := b.W.built[n].Dlg.Capabilities(); len(caps) == 1 {
-						kind := strings.TrimSuffix(b.Handlers[caps[0].Can()], "+didwith")
+						kind := baseKind(b.Handlers[caps[0].Can()])
 						var wantForks []string
 						wantJoin := ""
 						wf, wj := kindEffects(kind)
@@ -843,4 +848,13 @@ func randomBatch(r *rand.Rand, id int, seed int64, maxInv int, dup bool) *Batch 
 	}
 	// invocations may share a proof: cite the first invocation's delegation from the second (as a decoy)
 	return b
+}
+
+
+// baseKind strips the resource-reader suffix ("+didwith", "+didkey") of a handler kind
+func baseKind(kind string) string {
+	if i := strings.Index(kind, "+"); i >= 0 {
+		return kind[:i]
+	}
+	return kind
 }
